@@ -7,7 +7,7 @@ CONFIGS["C42"] = dict(
     level="exploration",
     level_text="seeded search over (request batch x schedule): the real router, authentication, services.ServiceHandler "
                "(in-process), service cache, compiler and VM serve batches of 2-5 requests with pairwise distinct URL parts, "
-               "parameters, bodies, headers and users to generated stateless services and two shipped ones; each batch is "
+               "parameters, bodies, headers and users to generated stateless services (one of which ends in a run-time error for some inputs) and two shipped ones, in one or two waves; each batch is "
                "served request by request on a server that has seen no other request (absolute reference), one at a time on one "
                "server (must equal the absolute reference: no request sees an earlier one's data) and then, after flushing the service cache, concurrently under the seeded "
                "scheduler at bytecode-instruction and lock granularity; every concurrent response (status, content type, "
@@ -23,7 +23,9 @@ CONFIGS["C42"] = dict(
     race_quick=dict(runs=96, per_proc=8, budget_s=240),
     race_thorough=dict(runs=4000, per_proc=50, budget_s=1500),
     det_seeds=16,
-    rule="batches of 2-5 requests over 5 endpoints (3 generated stateless services with loops, helper functions, URL "
+    rule="batches of 2-5 requests over 8 endpoints (6 generated stateless services, among them one that reads a bare URL-part symbol and one that "
+         "divides by a URL part and so ends in a run-time error (500) when it is 0; half of the batches are split into two waves on one server, "
+         "half of those with a failing request in the first wave; 3 of the generated services with loops, helper functions, URL "
          "parts, parameters, body, headers, user; shipped factor and unit-test/echo), one favourite endpoint per batch so "
          "same-endpoint first-request races are common, users from {anonymous, 4 accounts}; knobs: service cache size "
          "0/1/20, free-step budget, preemption probability. non-trivial = >=2 tasks runnable at some decision; distinct = "
@@ -33,5 +35,5 @@ CONFIGS["C42"] = dict(
     stubbed=["user store: in-memory implementation of the AuthService interface with MinCost bcrypt hashes (existing seam)",
              "sync: scheduling shim", "time: synctest fake clock", "child-process service mode is off"],
     assumptions=["services used keep no package-level state", "volatile response fields (session id, server info) are masked before comparison"],
-    required_probes=["batches_with_same_endpoint_requests", "successful_reference_responses"],
+    required_probes=["batches_with_same_endpoint_requests", "successful_reference_responses", "requests_ending_in_runtime_error"],
 )
